@@ -132,7 +132,10 @@ class FakePyAudio(object):
       raise ValueError("backend rejects this stream configuration")
     self.world.device_call("open")
     st = FakePaStream(self, kwargs)
-    self._streams.add(st)
+    if getattr(self.world, "registry", "faithful") != "empty":
+      # (the private registry of PyAudio; a compatible backend may as well
+      # keep its streams elsewhere and leave this one empty)
+      self._streams.add(st)
     self.world.record("open", st.sid, {k: kwargs[k] for k in sorted(kwargs)})
     return st
 
